@@ -378,8 +378,10 @@ theorem lstep_assignIndex (hd : P.dscope = L.ds) (hs : LSetupOk L) (ih : LSim P 
     have hlo := eOk_lvalue t root path ht hlv
     have hroot : L.varFit f (tagsOf σ) j root = true := by simpa using hlo.1
     simp only []
-    obtain ⟨ho2, hq2⟩ := ih.list path s1 s2 f j σ Γr A hlo.2 ha hctx hrel' hq
-    chainF (evalList P L.cfg n path s1), (evalList P plain n path s2), ho2, hq2
+    obtain ⟨ho2, hq2⟩ := lchecked ih P.argMissing (pathItems P.idx path) s1 s2 f j σ Γr A
+      (fun e chk hm => efit_mem (es := path) hlo.2 e (pathItems_mem hm)) ha hctx hrel' hq
+    chainF (evalChecked (evalExpr P L.cfg n) P.argMissing (pathItems P.idx path) s1),
+      (evalChecked (evalExpr P plain n) P.argMissing (pathItems P.idx path) s2), ho2, hq2
     have el : lookupEnv L.ds root s1.env = lookupEnv L.ds root s2.env := fit_lookup hs ha hctx hroot hrel'.2.2
     rw [el]
     cases lookupEnv L.ds root s2.env with
